@@ -139,15 +139,27 @@ import re as _re
 _INTERNAL = _re.compile(r"^(name|_sep|_extra|_[A-Za-z]*Node__\w+)$")     # the library's own instance fields
 
 
+def _nm(x):
+    """a node / row name -> the string the model works with: a str is itself, an int id is a tagged string (so 7 and
+    "7" are different names, and a name that came back as another type is a difference)"""
+    if isinstance(x, str):
+        return x
+    if isinstance(x, bool):
+        raise TypeError("bool as a name")
+    if isinstance(x, int):
+        return TAG + "int:" + str(x)
+    if hasattr(x, "item") and type(x).__name__.startswith("int"):      # numpy integer read back from a frame
+        return TAG + "int:" + str(int(x))
+    raise TypeError(f"name of type {type(x).__name__}: {x!r}")
+
+
 def _obs_tree(root):
     """pre-order (depth, name, attributes sorted by key); public instance attributes except `name`."""
     out = []
     todo = [(root, 0)]
     while todo:
         n, d = todo.pop()
-        name = n.node_name
-        if not isinstance(name, str):
-            raise TypeError("node name is not a str")
+        name = _nm(n.node_name)
         at = sorted((k, _canon_val(v)) for k, v in vars(n).items() if not _INTERNAL.match(k))
         out.append([d, name, [list(kv) for kv in at]])
         if len(out) > 400:
@@ -366,10 +378,21 @@ def run_impl(prop, case):
         cn, pn = spec.get("child", "child"), spec.get("parent", "parent")
         order = spec.get("order") or ([cn, pn] + cols)
         fkw = dict(kw)
-        if spec.get("explicit"):
-            fkw.update(child_col=cn, parent_col=pn)
+        given = spec.get("given") or ("both" if spec.get("explicit") else "none")
+        fargs = []
+        if case.get("positional"):
+            # child_col, parent_col as 2nd / 3rd positional argument ("" = the documented "not given")
+            fargs = [cn if given in ("both", "child") else "", pn if given in ("both", "parent") else ""]
+        else:
+            if given in ("both", "child"):
+                fkw["child_col"] = cn
+            if given in ("both", "parent"):
+                fkw["parent_col"] = pn
         if case.get("attr_sel"):
             fkw["attribute_cols"] = list(case["attr_sel"])
+        lkw, largs = dict(kw), []
+        if case.get("positional") and "allow_duplicates" in lkw:
+            largs = [lkw.pop("allow_duplicates")]
         import numpy as np
         nulls = case.get("nulls") or []
         NULL = {"none": None, "nan": np.nan, "na": pd.NA}
@@ -389,7 +412,7 @@ def run_impl(prop, case):
                       "tuple": lambda: tuple(prs)}[case.get("relform", "tuples")]
                 rel = mk()
                 before = copy.deepcopy(rel)
-                obs[entry] = _twice(lambda: C.list_to_tree_by_relation(rel, **kw), _obs_tree, cls)
+                obs[entry] = _twice(lambda: C.list_to_tree_by_relation(rel, *largs, **lkw), _obs_tree, cls)
                 if rel != before or type(rel) is not type(before):
                     raise ObsError("list_to_tree_by_relation changed the caller's relation list")
             elif entry == "pandas":
@@ -402,19 +425,19 @@ def run_impl(prop, case):
                 if case.get("index") is not None:
                     df.index = list(case["index"])      # non-default row labels (repeated / shuffled / strings)
                 before = df.copy(deep=True)
-                obs[entry] = _twice(lambda: C.dataframe_to_tree_by_relation(df, **fkw), _obs_tree, cls)
+                obs[entry] = _twice(lambda: C.dataframe_to_tree_by_relation(df, *fargs, **fkw), _obs_tree, cls)
                 if not (list(df.columns) == list(before.columns) and list(df.index) == list(before.index)
                         and df.equals(before) and list(df.dtypes) == list(before.dtypes)):
                     raise ObsError("dataframe_to_tree_by_relation changed the caller's DataFrame")
             else:
                 schema = {}
                 for k in order:
-                    schema[k] = pl.Utf8 if k in (cn, pn) else \
+                    schema[k] = (pl.Int64 if case.get("names") == "int" else pl.Utf8) if k in (cn, pn) else \
                         {"int": pl.Int64, "bool": pl.Boolean, "str": pl.Utf8, "float": pl.Float64}[_ctype(case, k)]
                 data = [[cell(i, k, True) for k in order] for i in range(len(rows))]
                 df = pl.DataFrame(data, schema=schema, orient="row")
                 before = df.clone()
-                obs[entry] = _twice(lambda: C.polars_to_tree_by_relation(df, **fkw), _obs_tree, cls)
+                obs[entry] = _twice(lambda: C.polars_to_tree_by_relation(df, *fargs, **fkw), _obs_tree, cls)
                 if not (df.columns == before.columns and df.equals(before)):
                     raise ObsError("polars_to_tree_by_relation changed the caller's DataFrame")
         return obs
@@ -433,7 +456,10 @@ def run_impl(prop, case):
         def conv(r):
             _check_result(r, cls)
             return _obs_tree(r)
-        build = lambda: C.nested_dict_to_tree(d, **kw)
+        nargs = []
+        if case.get("positional"):
+            nargs = [kw.pop("name_key", "name"), kw.pop("child_key", "children")]
+        build = lambda: C.nested_dict_to_tree(d, *nargs, **kw)
         first = _call(build, conv)
         unchanged1 = (d == before)
         second = _call(build, conv)        # the very same input object once more
@@ -465,7 +491,8 @@ def run_impl(prop, case):
                     raise ObsError("a BinaryNode without exactly two child slots")
                 return [codes[_heap_key(x)], go(n.left, depth + 1), go(n.right, depth + 1)]
             return go(root, 0)
-        out = _twice(lambda: m["l2b"](arg, **kw), conv, cls)
+        hargs = [kw.pop("node_type")] if (case.get("positional") and "node_type" in kw) else []
+        out = _twice(lambda: m["l2b"](arg, *hargs, **kw), conv, cls)
         if arg != before or [type(x) for x in arg] != [type(x) for x in before]:
             raise ObsError("list_to_binarytree changed the caller's list")
         return out
@@ -526,14 +553,16 @@ def _cbin(b):
 
 def _crow(r, cols):
     c, p, a = r
-    return f"({cstr(c)}, {copt(p, cstr)}, {_cattrs([(k, _mval(a.get(k), True)) for k in cols])})"
+    return (f"({cstr(_nm(c))}, {copt(p, lambda x: cstr(_nm(x)))}, "
+            f"{_cattrs([(k, _mval(a.get(k), True)) for k in cols])})")
 
 
-def _cnd(d):
+def _cnd(d, name_key=None):
     ck = {"missing": "CMissing", "bad": "CBad", "list": "CList"}[d["ckind"]]
     kids = d["kids"] if d["ckind"] == "list" else []
-    ents = [(k, _mval(v, False)) for k, v in d["entries"]]
-    return f"ND {_cattrs(ents)} {ck} {clist('(' + _cnd(k) + ')' for k in kids)}"
+    ents = [(k, (_nm(v) if (k == name_key and isinstance(v, int) and not isinstance(v, bool)) else _mval(v, False)))
+            for k, v in d["entries"]]
+    return f"ND {_cattrs(ents)} {ck} {clist('(' + _cnd(k, name_key) + ')' for k in kids)}"
 
 
 def emit(prop, case, obs):
@@ -543,7 +572,7 @@ def emit(prop, case, obs):
         outs = clist(cpair(str(ENTRY_CODE[e]), _cout_tree(obs[e])) for e in case["entries"])
         return f"CRel {cbool(case['allow_dup'])} {rows} {outs}"
     if kind == "nest":
-        return (f"CNest {cstr(case['name_key'])} ({_cnd(case['dict'])}) ({_cout_tree(obs['first'])}) "
+        return (f"CNest {cstr(case['name_key'])} ({_cnd(case['dict'], case['name_key'])}) ({_cout_tree(obs['first'])}) "
                 f"({_cout_tree(obs['second'])}) {cbool(obs['unchanged'])}")
     if kind == "heap":
         o = f"Acc ({_cbin(obs['ok'])})" if "ok" in obs else f"Rej {int(obs['err'])}"
@@ -787,7 +816,10 @@ def _case_variants(rng, rows):
     groups = [cs for cs in by_parent.values() if len(set(cs)) >= 2]
     rng.shuffle(groups)
     for cs in groups[:3]:
-        a, b = rng.sample(sorted(set(cs)), 2)
+        strs = sorted({c for c in cs if isinstance(c, str)})
+        if len(strs) < 2:
+            continue
+        a, b = rng.sample(strs, 2)
         new = a.swapcase()
         if new == a or new in used or not a:
             continue
@@ -832,25 +864,65 @@ def _finish_rel(rng, lab, case):
     if any(p is None for _, p, _ in case["rows"]) and rng.random() < 0.6:
         case["nulls"] = [rng.choice(["none", "nan", "nan", "na"]) for _ in case["rows"]]
         lab += "+nullspelling"
-    if rng.random() < 0.45:
-        cn, pn = rng.choice([("child", "parent"), ("node", "up"), ("c", "p"), ("p", "c"), ("id", "pid"), ("parent", "child")])
-        spec = {"child": cn, "parent": pn, "explicit": True}
-        order = [cn, pn] + list(case["cols"])
-        r = rng.random()
-        if r < 0.6:
-            rng.shuffle(order)                          # unusual column order, columns named explicitly
-        elif r < 0.8 and (cn, pn) != ("parent", "child"):
-            spec["explicit"] = False                    # first column = child, second = parent, by position
-        if cn == "parent":
-            spec["explicit"] = True
-        spec["order"] = order
-        case["colspec"] = spec
-        lab += "+cols"
+    if rng.random() < 0.3:
+        case["positional"] = True
+    if rng.random() < 0.55:
+        cn, pn = rng.choice([("child", "parent"), ("node", "up"), ("c", "p"), ("p", "c"), ("id", "pid"),
+                             ("parent", "child"), ("person", "mentor")])
+        given = rng.choice(["both", "both", "child", "parent", "child", "parent", "none"])
+        cols_ = list(case["cols"])
+        rng.shuffle(cols_)
+        if given == "both":
+            order = [cn, pn] + cols_
+            if rng.random() < 0.8:
+                rng.shuffle(order)                      # any column order, both hierarchy columns named
+        elif given == "none":
+            order = [cn, pn] + cols_                    # first column = child, second = parent, by position
+        elif given == "parent":
+            # child by position (first column); the named parent column anywhere but where the default would look
+            rest = cols_[:1] + [pn] + cols_[1:] if cols_ else [pn]
+            if len(cols_) >= 2 and rng.random() < 0.5:
+                rest = cols_ + [pn]
+            order = [cn] + rest
+        else:
+            # parent by position (second column); the named child column not in first place when possible
+            order = ([cols_[0], pn] + cols_[1:] + [cn]) if cols_ else [cn, pn]
+            if len(cols_) >= 2 and rng.random() < 0.5:
+                order = [cols_[0], pn, cn] + cols_[1:]
+        case["colspec"] = {"child": cn, "parent": pn, "given": given, "order": order}
+        lab += "+cols:" + given
         if len(case["cols"]) >= 2 and rng.random() < 0.5:
             k = rng.randint(1, len(case["cols"]) - 1)
             case["attr_sel"] = rng.sample(case["cols"], k)      # the other attribute columns must be ignored
             lab += "+attrsel"
+    r = rng.random()
+    if r < 0.3:
+        lab += _int_names(rng, case, "int" if r < 0.18 else "mixed")
     return lab, case
+
+
+def _int_names(rng, case, mode):
+    """rename names to int ids (all of them, or some): equal names stay equal, distinct names stay distinct, an int is
+    never used next to its own decimal string, 0 is not used (Node refuses a falsy name)"""
+    names = []
+    for c, p, _ in case["rows"]:
+        for x in (c, p):
+            if x is not None and x not in names:
+                names.append(x)
+    taken = {int(x) for x in names if isinstance(x, str) and x.lstrip("-").isdigit()}
+    ids = [i for i in range(1, 3 * len(names) + 20) if i not in taken]
+    rng.shuffle(ids)
+    chosen = names if mode == "int" else [x for x in names if rng.random() < 0.5]
+    ren = {x: ids[i] for i, x in enumerate(chosen)}
+    if not ren:
+        return ""
+    case["rows"] = [[ren.get(c, c), (None if p is None else ren.get(p, p)), a] for c, p, a in case["rows"]]
+    if mode == "int" and len(ren) == len(names):
+        case["names"] = "int"
+    else:
+        case["names"] = "mixed"
+        case["entries"] = [e for e in case["entries"] if e != "polars"]      # one polars column has one type
+    return "+names:" + case["names"]
 
 
 def gen_rel(rng, force=None):
@@ -1070,7 +1142,36 @@ def gen_nest(rng, force_malformed=None):
             _nest_case_variants(rng, d, name_key)
     if rng.random() < 0.3:
         case["keys_explicit"] = True
+    if rng.random() < 0.3:
+        case["positional"] = True
+    if defect is None and rng.random() < 0.25:
+        _nest_int_names(rng, d, name_key)
+        lab += "+intnames"
     return lab, case
+
+
+def _nest_int_names(rng, d, name_key):
+    """some (or all) names become int ids; shared template objects keep one name"""
+    names = []
+
+    def collect(x):
+        for k, v in x["entries"]:
+            if k == name_key and isinstance(v, str) and v not in names:
+                names.append(v)
+        for k in x["kids"]:
+            collect(k)
+    collect(d)
+    taken = {int(x) for x in names if x.lstrip("-").isdigit()}
+    ids = [i for i in range(1, 3 * len(names) + 20) if i not in taken]
+    rng.shuffle(ids)
+    allint = rng.random() < 0.5
+    ren = {x: ids[i] for i, x in enumerate(names) if allint or rng.random() < 0.5}
+
+    def apply(x):
+        x["entries"] = [[k, (ren.get(v, v) if (k == name_key and isinstance(v, str)) else v)] for k, v in x["entries"]]
+        for k in x["kids"]:
+            apply(k)
+    apply(d)
 
 
 def _nest_case_variants(rng, d, name_key):
@@ -1157,6 +1258,8 @@ def gen_heap(rng):
     if rng.random() < 0.45:
         # (no falsy-instance subclass here: BinaryNode's parent setter tests slots with `if not child`, see rule())
         case["node_type"] = rng.choice(["custom", "eq", "eq", "kw"])
+        if rng.random() < 0.4:
+            case["positional"] = True
     return f"heap/{style}/{'len>=16' if n >= 16 else 'len<16'}", case
 
 
@@ -1378,6 +1481,12 @@ def rule(prop):
             "val with repeated values), subclasses whose instances are falsy (__len__ = number of children; __bool__ = False; "
             "not for BinaryNode, see partial clauses), a subclass with an extra constructor argument and a property - for "
             "every entry point.  "
+            "NAMES: str, int ids, or a mix (never an int next to its own decimal string, never 0) for the list, pandas and "
+            "nested-dict entry points, all-int for polars; names are compared by value and type (an int id is a tagged "
+            "string for the model).  OPTION PRESENCE: child_col x parent_col in all four combinations (with column orders in "
+            "which the omitted one sits at its default position and the named one does not), given by keyword or "
+            "positionally ('' for the omitted one); attribute_cols / allow_duplicates / node_type / name_key / child_key "
+            "given or omitted independently, positionally or by keyword.  "
             "Empty parents are spelled None, NaN or pd.NA (per row) for the list and pandas entry points, in object and "
             "inferred-dtype frames (F12).  "
             "non-trivial = accepted tree with >= 3 nodes, or a refused input with >= 2 rows (relations); >= 3 nodes or "
@@ -1399,9 +1508,10 @@ def partial_clauses(prop):
         "not generated because the unchanged bigtree is not well-defined there (reported): BinaryNode subclasses whose "
         "instances can be falsy (__len__ = number of children, or __bool__ by value) with list_to_binarytree - "
         "BinaryNode's parent setter looks for a free slot with `if not child`, so a falsy left child is overwritten",
+        "not generated: the int id 0 (Node's constructor tests `if not self.node_name` and refuses a node named 0 with "
+        "'Node must have a `name` attribute' - reported); float / bool / other non-str non-int names",
         "deliberately not generated: polars frames with inferred instead of declared "
-        "column types; generators as relation lists (the function needs len()); names that are not str (the only "
-        "Unmodelled domain of the nested-dict model: never generated, 0 skipped cases per run); attribute columns called "
+        "column types; generators as relation lists (the function needs len()); attribute columns called "
         "name / parent / children / sep (they would feed Node's constructor); reachable cycles only 6 cases per quick "
         "run (RecursionError takes ~0.5 s each); BinaryNode subclasses other than a plain subclass; heap lists holding "
         "non-numbers",
